@@ -83,7 +83,7 @@ Section Finder.
     | t :: s' => match a_kind t with AK_RPAREN => s | _ => skip_group s' end
     end.
 
-  Fixpoint run (fuel : nat) (m : mode) (s : list atok) (acc : list aug) {struct fuel}
+  Fixpoint arun (fuel : nat) (m : mode) (s : list atok) (acc : list aug) {struct fuel}
     : option (list atok * list aug) :=
     match fuel with
     | O => None
@@ -93,49 +93,49 @@ Section Finder.
             match kcur s with
             | AK_IDENT => Some (f_ident s, acc)
             | AK_ELLIPSIS => Some (f_ellipsis s acc)
-            | AK_FUNC => run f MFunction s acc
+            | AK_FUNC => arun f MFunction s acc
             | _ => Some (nxt s, acc)
             end
         | MFunction =>
             (* next (func); params; results *)
-            match run f MFieldList (nxt s) acc with
+            match arun f MFieldList (nxt s) acc with
             | Some (s1, a1) =>
                 match kcur s1 with
-                | AK_LPAREN => run f MFieldList s1 a1
+                | AK_LPAREN => arun f MFieldList s1 a1
                 | _ => Some (s1, a1)
                 end
             | None => None
             end
-        | MFieldList => run f (MFLLoop [] false) (nxt s) acc
+        | MFieldList => arun f (MFLLoop [] false) (nxt s) acc
         | MFLLoop ell named =>
             match kcur s with
             | AK_RPAREN | AK_EOF =>
                 Some (nxt s, acc ++ map (fun off => ADots off (off + 3) named) ell)
             | AK_FUNC =>
-                match run f MFunction s acc with
-                | Some (s1, a1) => run f (MFLLoop ell named) s1 a1
+                match arun f MFunction s acc with
+                | Some (s1, a1) => arun f (MFLLoop ell named) s1 a1
                 | None => None
                 end
             | AK_IDENT =>
                 let s1 := nxt s in
                 let s2 := match kcur s1 with AK_PERIOD => nxt (nxt s1) | _ => s1 end in
                 let named' := match kcur s2 with AK_COMMA | AK_RPAREN => named | _ => true end in
-                run f (MFLLoop ell named') s2 acc
+                arun f (MFLLoop ell named') s2 acc
             | AK_ELLIPSIS =>
                 let off := ocur s in
                 let s1 := nxt s in
                 match kcur s1 with
-                | AK_IDENT => run f (MFLLoop ell named) s1 acc
-                | _ => run f (MFLLoop (ell ++ [off]) named) s1 acc
+                | AK_IDENT => arun f (MFLLoop ell named) s1 acc
+                | _ => arun f (MFLLoop (ell ++ [off]) named) s1 acc
                 end
-            | _ => run f (MFLLoop ell named) (nxt s) acc
+            | _ => arun f (MFLLoop ell named) (nxt s) acc
             end
         | MRecv =>
             match kcur s with
             | AK_RPAREN | AK_EOF => Some (s, acc)
             | _ =>
-                match run f MProcess s acc with
-                | Some (s1, a1) => run f MRecv s1 a1
+                match arun f MProcess s acc with
+                | Some (s1, a1) => arun f MRecv s1 a1
                 | None => None
                 end
             end
@@ -144,7 +144,7 @@ Section Finder.
             let after_recv :=
               match kcur s1 with
               | AK_LPAREN =>
-                  match run f MRecv (nxt s1) acc with
+                  match arun f MRecv (nxt s1) acc with
                   | Some (s3, a3) => Some (nxt s3, a3)           (* ) *)
                   | None => None
                   end
@@ -152,10 +152,10 @@ Section Finder.
               end in
             match after_recv with
             | Some (s4, a4) =>
-                match run f MFieldList (nxt s4) a4 with          (* func name; params *)
+                match arun f MFieldList (nxt s4) a4 with          (* func name; params *)
                 | Some (s5, a5) =>
                     match kcur s5 with
-                    | AK_LPAREN => run f MFieldList s5 a5        (* results *)
+                    | AK_LPAREN => arun f MFieldList s5 a5        (* results *)
                     | _ => Some (s5, a5)
                     end
                 | None => None
@@ -167,10 +167,10 @@ Section Finder.
             | AK_IMPORT =>
                 let s1 := nxt s in
                 match kcur s1 with
-                | AK_LPAREN => run f MImports (nxt (nxt (skip_group s1))) acc
-                | AK_PERIOD | AK_IDENT => run f MImports (nxt (nxt (nxt s1))) acc
+                | AK_LPAREN => arun f MImports (nxt (nxt (skip_group s1))) acc
+                | AK_PERIOD | AK_IDENT => arun f MImports (nxt (nxt (nxt s1))) acc
                 | AK_EOF => Some (s1, acc)
-                | _ => run f MImports (nxt (nxt s1)) acc
+                | _ => arun f MImports (nxt (nxt s1)) acc
                 end
             | _ => Some (s, acc)
             end
@@ -178,8 +178,8 @@ Section Finder.
             match kcur s with
             | AK_EOF => Some (s, acc)
             | _ =>
-                match run f MProcess s acc with
-                | Some (s1, a1) => run f MMain s1 a1
+                match arun f MProcess s acc with
+                | Some (s1, a1) => arun f MMain s1 a1
                 | None => None
                 end
             end
@@ -197,18 +197,18 @@ Section Finder.
   Definition f_top (fuel : nat) (s : list atok) (acc : list aug) : option (list atok * list aug) :=
     match kcur s with
     | AK_TYPE | AK_CONST | AK_VAR => Some (nxt s, acc)
-    | AK_FUNC => run fuel MFuncDecl s acc
+    | AK_FUNC => arun fuel MFuncDecl s acc
     | AK_LBRACE => Some (nxt s, acc ++ [FakeFunc (ocur s) false])
     | _ => Some (s, acc ++ [FakeFunc (ocur s) true])
     end.
 
   Definition find_fuel (fuel : nat) (toks : list atok) : option (list aug) :=
     let '(s0, a0) := f_pkg toks in
-    match run fuel MImports s0 a0 with
+    match arun fuel MImports s0 a0 with
     | Some (s1, a1) =>
         match f_top fuel s1 a1 with
         | Some (s2, a2) =>
-            match run fuel MMain s2 a2 with
+            match arun fuel MMain s2 a2 with
             | Some (_, a3) => Some a3
             | None => None
             end
